@@ -16,17 +16,25 @@
      is_float_dtype / is_string_dtype on it;
    - isna / dropna ([Missing] = None or NaN);
    - value_counts().min() ([min_count]);
-   - pd.to_datetime accepts a string column iff every cell is a date string.
-     Date RECOGNITION is pandas'; [DateStr] is an input classification (the
-     generator emits only clear dates and clear non-dates);
+   - pd.to_datetime(ser, format=f): with an explicit format it accepts the column
+     iff every cell is written in that format; with format=None pandas GUESSES the
+     format from the first element and then demands it of every cell.  Which formats
+     a date string is accepted under, and which one pandas guesses from it, are
+     input classifications carried by [DateStr] (the harness compares the guess with
+     pandas.guess_datetime_format on every date cell); date RECOGNITION is pandas';
    - str.split(sep) for a one-character sep, str.strip() on ASCII white space,
      set() as duplicate removal, Series.explode (empty set -> NaN, not counted).
 
-   Domain on which the model is validated: homogeneous columns (all non-missing
-   cells of one kind; Int cells with Missing are held by pandas as float64), plus
-   three malformed streams (list and string cells mixed, date and non-date strings
-   mixed, lists with mixed elements).  Bool columns with missing cells and other
-   mixed-kind object columns are outside it. *)
+   - pandas.api.types.infer_dtype(ser, skipna=True) == 'boolean' on a homogeneous
+     column: all cells are bools ([infers_boolean]).
+
+   Domain on which the model is validated (correspondence): homogeneous columns
+   (all non-missing cells of one kind; Int cells with Missing are held by pandas as
+   float64; Bool cells with Missing as object), including date columns in formats
+   pandas must guess and in mixed formats, and integral floats with NaN.  Mixed-kind
+   object columns (lists with strings, lists with mixed elements, dates with
+   non-dates) are run by the harness but are NOT part of the correspondence: the
+   model's answers there are not validated. *)
 From Coq Require Import List ZArith QArith Bool String Ascii Arith.
 From PF Require Import Gen.Tables.
 Import ListNotations.
@@ -45,7 +53,9 @@ Inductive cell :=
 | Int (z : Z)
 | Bool (b : bool)
 | Str (s : string)      (* a string pandas does not parse as a date *)
-| DateStr (s : string)  (* a string pandas parses as a date *)
+| DateStr (guess : string) (accepts : list string) (s : string)
+                        (* a date string: the strftime format pandas guesses from it, and
+                           the formats under which it parses *)
 | LList (l : list elem)
 | Missing.              (* None / NaN *)
 
@@ -61,8 +71,8 @@ Inductive dtype := DFloat | DInt | DBool | DString | DObject.
 
 Definition is_missing (c : cell) : bool := match c with Missing => true | _ => false end.
 Definition is_list (c : cell) : bool := match c with LList _ => true | _ => false end.
-Definition is_strlike (c : cell) : bool := match c with Str _ | DateStr _ => true | _ => false end.
-Definition is_datestr (c : cell) : bool := match c with DateStr _ => true | _ => false end.
+Definition is_strlike (c : cell) : bool := match c with Str _ | DateStr _ _ _ => true | _ => false end.
+Definition is_datestr (c : cell) : bool := match c with DateStr _ _ _ => true | _ => false end.
 Definition is_bool_cell (c : cell) : bool := match c with Bool _ => true | _ => false end.
 Definition is_int_cell (c : cell) : bool := match c with Int _ => true | _ => false end.
 Definition is_num_cell (c : cell) : bool := match c with Int _ | Float _ => true | _ => false end.
@@ -99,9 +109,9 @@ Definition cell_eqb (a b : cell) : bool :=
   | Int x, Int y => Z.eqb x y
   | Bool x, Bool y => Bool.eqb x y
   | Str s, Str t => String.eqb s t
-  | Str s, DateStr t => String.eqb s t
-  | DateStr s, Str t => String.eqb s t
-  | DateStr s, DateStr t => String.eqb s t
+  | Str s, DateStr _ _ t => String.eqb s t
+  | DateStr _ _ s, Str t => String.eqb s t
+  | DateStr _ _ s, DateStr _ _ t => String.eqb s t
   | _, _ => false
   end.
 
@@ -176,7 +186,7 @@ Definition split_by_sep (row : string) (sep : string) : option (list string) :=
   match sep_char sep with Some c => Some (row_tokens c row) | None => None end.
 
 Definition cell_string (c : cell) : string :=
-  match c with Str s | DateStr s => s | _ => EmptyString end.
+  match c with Str s | DateStr _ _ s => s | _ => EmptyString end.
 
 (* _min_count(ser.apply(split_by_sep(., sep)).explode()) ; None = exception, skipped.
    explode turns every set into one row per member (an empty set into a NaN row,
@@ -229,8 +239,22 @@ Definition is_integral (c : cell) : bool :=
   | _ => false
   end.
 
-(* _is_timestamp: some candidate format parses the whole column *)
-Definition is_timestamp (ser : list cell) : bool := forallb is_datestr ser.
+(* pd.to_datetime(ser, format=f) does not raise *)
+Definition cell_accepts (f : string) (c : cell) : bool :=
+  match c with DateStr _ a _ => existsb (String.eqb f) a | _ => false end.
+Definition parses_with (f : string) (ser : list cell) : bool := forallb (cell_accepts f) ser.
+(* format=None: the format is guessed from the first element *)
+Definition parses_guessing (ser : list cell) : bool :=
+  match ser with DateStr g _ _ :: _ => parses_with g ser | _ => false end.
+
+(* _is_timestamp: some candidate of POSSIBLE_TIME_FORMATS parses the whole column *)
+Definition is_timestamp (ser : list cell) : bool :=
+  existsb (fun fo => match fo with Some f => parses_with f ser | None => parses_guessing ser end)
+          possible_time_formats.
+
+(* infer_dtype(ser, skipna=True) == 'boolean' *)
+Definition infers_boolean (ser : list cell) : bool :=
+  match ser with [] => false | _ => forallb is_bool_cell ser end.
 
 Definition infer_scalar_branch (hasnan : bool) (d : dtype) (ser : list cell) : outcome :=
   if is_numeric_dtype d then
@@ -240,7 +264,8 @@ Definition infer_scalar_branch (hasnan : bool) (d : dtype) (ser : list cell) : o
     else Inferred (Some st_numerical)
   else
     if is_timestamp ser then Inferred (Some st_timestamp)
-    else if above_thresh (min_count ser) || is_bool_dtype d then Inferred (Some st_categorical)
+    else if above_thresh (min_count ser) || is_bool_dtype d || infers_boolean ser
+    then Inferred (Some st_categorical)
     else if negb (is_string_dtype d) then
       (if above_thresh (min_count ser) then Inferred (Some st_multicategorical)
        else Inferred (Some st_embedding))
